@@ -369,6 +369,29 @@ func C03(c *hx.Ctx) {
 				}
 			}
 		}
+		// many blocks: record count >= 128 (two-byte count), sizes on both sides of 128
+		for _, nb := range []int{127, 128, 130} {
+			var layout []ref.BlockSpec
+			var plain []byte
+			for k := 0; k < nb; k++ {
+				b := small(k)
+				if k%5 == 0 {
+					b = ref.BlockSpec{L2: []byte{0}, WithC: k%2 == 0, WithU: k%3 == 0}
+				}
+				layout = append(layout, b)
+				plain = append(plain, b.Content...)
+			}
+			file := ref.Serialize([]ref.LStream{ref.BuildStream([]int{1, 4, 10}[nb%3], layout)})
+			if xr := ref.DecodeXZ(file, ref.XZOpts{}); xr.Err != nil || !bytes.Equal(xr.Content, plain) {
+				c.Inconclusive("trusted base: ref rejects its own many-block layout: %v", xr.Err)
+				continue
+			}
+			streams = append(streams, stream{fmt.Sprintf("gen/many-blocks-%d", nb), file, plain, []int{4096}, true})
+			if len(selfFiles) < 400 {
+				selfFiles = append(selfFiles, file)
+				selfPlain.Write(plain)
+			}
+		}
 		lim, lerr := sizeLimitStreams(c.Seed)
 		if lerr != nil {
 			c.Inconclusive("size-limit streams: %v", lerr)
